@@ -5,40 +5,11 @@
 #include <dispatch.h>
 #include <ncmpio_NC.h>
 #include "ghost.h"
-#include "conv_spec.h"
 
 int IN_flags, IN_format, IN_rank, IN_nprocs, IN_num_rec_vars; long long IN_numrecs, IN_new_numrecs;
 
-#define WRITER(ncp) (!((ncp)->rank > 0) && (ncp)->vars.num_rec_vars > 0)
-static inline long long llmax(long long a, long long b) { return a > b ? a : b; }
-
-int ncmpio_write_numrecs(NC *ncp, MPI_Offset new_numrecs)
-__CPROVER_requires(__CPROVER_is_fresh(ncp, sizeof(NC)))
-__CPROVER_requires(ncp->rank == g_rank && ncp->nprocs == g_nprocs)
-__CPROVER_requires(ncp->numrecs >= 0 && new_numrecs >= 0 && ncp->vars.num_rec_vars >= 0)
-__CPROVER_requires(ncp->format == 1 || ncp->format == 2 || ncp->format == 5)
-__CPROVER_requires(ncp->put_size >= 0 && ncp->put_size < ((long long)1 << 62))   /* statistics counter: no exabyte histories */
-__CPROVER_requires(g_io_n == 0 && g_coll_n == 0 && g_io_failed == 0)
-#ifdef ENFORCE_ncmpio_write_numrecs
-__CPROVER_requires(ncp->flags == IN_flags && ncp->format == IN_format && ncp->rank == IN_rank && ncp->nprocs == IN_nprocs &&
-                   ncp->vars.num_rec_vars == IN_num_rec_vars && ncp->numrecs == IN_numrecs && new_numrecs == IN_new_numrecs) /* tie */
-#endif
-__CPROVER_assigns(ncp->numrecs, ncp->put_size, GHOST_ASSIGNS)
-/* C11 */
-__CPROVER_ensures(IMPLIES(g_io_failed, __CPROVER_return_value != NC_NOERR)) /*@C11_io_failure_reported*/
-/* C05 */
-__CPROVER_ensures(ncp->numrecs >= __CPROVER_old(ncp->numrecs)) /*@C05_numrecs_never_decreases*/
-__CPROVER_ensures(IMPLIES(WRITER(ncp) && __CPROVER_return_value == NC_NOERR, ncp->numrecs == llmax(__CPROVER_old(ncp->numrecs), new_numrecs))) /*@C05_root_numrecs_is_max*/
-__CPROVER_ensures(IMPLIES(!WRITER(ncp), ncp->numrecs == __CPROVER_old(ncp->numrecs))) /*@C05_nonwriter_unchanged*/
-__CPROVER_ensures(IMPLIES(WRITER(ncp) && (new_numrecs > __CPROVER_old(ncp->numrecs) || (ncp->flags & NC_NDIRTY)) &&
-                          !(ncp->format < 5 && llmax(__CPROVER_old(ncp->numrecs), new_numrecs) > NC_MAX_INT), g_nwrites == 1)) /*@C05_header_written_when_grown_or_dirty*/
-/* C03: the field written is numrecs, big-endian, at byte 4, 4 bytes (CDF-1/2) or 8 bytes (CDF-5) */
-__CPROVER_ensures(IMPLIES(g_nwrites == 1 && g_io_count[0] > 0,
-      g_io_off[0] == 4 && g_io_count[0] == (ncp->format == 5 ? 8 : 4) && g_io_type[0] == MPI_BYTE &&
-      spec_be(g_io_bytes[0], ncp->format == 5 ? 8 : 4) == (unsigned long long)ncp->numrecs)) /*@C03_numrecs_field_encoding*/
-/* C08: the number of collective calls depends only on rank-invariant state and the role */
-__CPROVER_ensures(IMPLIES(!(ncp->flags & NC_HCOLL), g_coll_n == 0)) /*@C08_no_collective_without_HCOLL*/
-;
+#define ENFORCE_ncmpio_write_numrecs_TIE 1
+#include "sync_contracts.h"
 
 void harness(void)
 {
